@@ -493,6 +493,22 @@ func mergeEnv(cond string, a, b *Env) *Env {
 	return n
 }
 
+// clipMid shortens a long text for the table: head … 8 hex digits of the FNV-1a hash of the WHOLE text … tail. A change anywhere
+// in the text changes the printed form; the kernel compares short strings only.
+func clipMid(s string, n int) string {
+	r := []rune(s)
+	if len(r) <= n {
+		return s
+	}
+	h := uint32(2166136261)
+	for _, b := range []byte(s) {
+		h ^= uint32(b)
+		h *= 16777619
+	}
+	head, tail := n*3/5, n*2/5-12
+	return string(r[:head]) + fmt.Sprintf("…%08x…", h) + string(r[len(r)-tail:])
+}
+
 func clip(s string, n int) string {
 	r := []rune(s)
 	if len(r) > n {
@@ -809,7 +825,7 @@ func (w *walker) writeArg(fr *frame, e ast.Expr) string {
 			t += "{" + strings.Join(fs, ",") + "}"
 		}
 	}
-	return clip(t, 160)
+	return clipMid(t, 120)
 }
 
 // split "f(a, g(b, c), d)" into f and [a, g(b, c), d]
@@ -1006,7 +1022,7 @@ func (w *walker) handleCall(fr *frame, conds []Cond, call *ast.CallExpr) {
 	if op, ok := storeWrite(call); ok {
 		it := Item{kind: "write", op: op}
 		for _, a := range call.Args {
-			it.args = append(it.args, clip(w.norm(fr, a), 120))
+			it.args = append(it.args, clipMid(w.norm(fr, a), 120))
 		}
 		w.emit(fr, conds, it, call)
 		return
@@ -1070,7 +1086,7 @@ func (w *walker) clipAll(a []string, n int) []string {
 			out = append(out, "…")
 			break
 		}
-		out = append(out, clip(s, 160))
+		out = append(out, clipMid(s, 120))
 	}
 	return out
 }
@@ -1573,7 +1589,7 @@ func (w *walker) walkIf(fr *frame, x *ast.IfStmt, conds []Cond) (esc []Escape, t
 	// a rejecting guard met after the first effect
 	if t1 && r1 && len(e1) == 0 && w.sawEffect && len(w.items) == nBefore && !isNilCheck(x.Cond) {
 		saved := w.sawEffect
-		w.emit(fr, conds, Item{kind: "guard", op: "reject", args: []string{clip(ct, 300)}}, x)
+		w.emit(fr, conds, Item{kind: "guard", op: "reject", args: []string{clipMid(ct, 160)}}, x)
 		w.sawEffect = saved
 	}
 	esc = append(prefixEsc(cT, e1), prefixEsc(cF, e2)...)
@@ -1732,7 +1748,7 @@ func strList(xs []string) string {
 func condList(cs []Cond) string {
 	ps := make([]string, len(cs))
 	for i, c := range cs {
-		ps[i] = fmt.Sprintf("⟨%s, %s, %s⟩", q(c.kind), bl(c.pol), q(clip(c.text, 300)))
+		ps[i] = fmt.Sprintf("⟨%s, %s, %s⟩", q(c.kind), bl(c.pol), q(clipMid(c.text, 160)))
 	}
 	return "[" + strings.Join(ps, ", ") + "]"
 }
@@ -1767,7 +1783,7 @@ func main() {
 				}
 				switch it.kind {
 				case "bank":
-					fmt.Printf("  bank  %s  %s -> %s  denom=%s  amt=%s%s  [%s:%d]\n", it.op, it.src, it.dst, it.denom, it.amount, flags, it.fn, it.line)
+					fmt.Printf("  bank  %s  %s -> %s  denom=%s  amt=%s%s  [%s:%d]\n", it.op, clipMid(it.src, 160), clipMid(it.dst, 160), clipMid(it.denom, 160), clipMid(it.amount, 160), flags, it.fn, it.line)
 				default:
 					fmt.Printf("  %-5s %s(%s)%s  [%s:%d]\n", it.kind, it.op, strings.Join(it.args, "; "), flags, it.fn, it.line)
 				}
@@ -1776,7 +1792,7 @@ func main() {
 					if !c.pol {
 						p = "-"
 					}
-					fmt.Printf("          %s %s: %s\n", p, c.kind, clip(c.text, 300))
+					fmt.Printf("          %s %s: %s\n", p, c.kind, clipMid(c.text, 160))
 				}
 			}
 		}
@@ -1833,7 +1849,7 @@ func main() {
 				if i == len(h.items)-1 {
 					sep = ""
 				}
-				fmt.Fprintf(&b, "  ⟨%s, %s, %s, %s, %s, %s, %s, %s, %s, %s, %s, %d⟩%s\n", q(it.kind), q(it.op), q(clip(it.src, 240)), q(clip(it.dst, 240)), q(clip(it.denom, 240)), q(clip(it.amount, 300)),
+				fmt.Fprintf(&b, "  ⟨%s, %s, %s, %s, %s, %s, %s, %s, %s, %s, %s, %d⟩%s\n", q(it.kind), q(it.op), q(clipMid(it.src, 160)), q(clipMid(it.dst, 160)), q(clipMid(it.denom, 160)), q(clipMid(it.amount, 160)),
 					strList(it.args), condList(it.conds), bl(it.inLoop), bl(it.cache), q(it.fn), it.line, sep)
 			}
 			b.WriteString("] }\n\n")
